@@ -298,8 +298,16 @@ func connpoolProviders(c *core.Ctx, want types.Type) (bool, string) {
 				bad = append(bad, "Dial is "+core.Expr(st.Val))
 				return
 			}
+			// a method value (`t.dial`): go/ssa wraps it in a synthetic function that forwards to the method
+			if f.Synthetic != "" {
+				for _, c2 := range core.Calls(f) {
+					if g := core.StaticCallee(c2); g != nil && g.Blocks != nil {
+						f = g
+					}
+				}
+			}
 			for _, ret := range returnsOf(f) {
-				for _, r := range core.Origins(core.ReturnResults(ret)[0], core.OriginOpts{}) {
+				for _, r := range core.Origins(core.ReturnResults(ret)[0], core.OriginOpts{ThroughCall: throughHelpers()}) {
 					if core.IsNilConst(r) {
 						continue
 					}
